@@ -18,6 +18,7 @@ import (
 	"github.com/zishang520/engine.io/v2/log"
 	"github.com/zishang520/engine.io/v2/types"
 	"github.com/zishang520/engine.io/v2/utils"
+	"github.com/zishang520/engine.io/v2/verifhook"
 )
 
 var polling_log = log.NewLog("engine:polling")
@@ -85,6 +86,7 @@ func (p *polling) onPollRequest(ctx *types.HttpContext) {
 		ctx.Write(nil)
 		return
 	}
+	verifhook.At("polling.poll.tested", p.Sid())
 
 	p.req.Store(ctx)
 
@@ -132,6 +134,7 @@ func (p *polling) onDataRequest(ctx *types.HttpContext) {
 		p.OnError("invalid content", nil)
 		return
 	}
+	verifhook.At("polling.data.tested", p.Sid())
 
 	p.dataCtx.Store(ctx)
 
@@ -219,6 +222,7 @@ func (p *polling) Send(packets []*packet.Packet) {
 	go p.send(packets)
 }
 func (p *polling) send(packets []*packet.Packet) {
+	verifhook.At("polling.send.enter", p.Sid())
 	p.mu.Lock()
 	defer p.mu.Unlock()
 
